@@ -483,6 +483,37 @@ func scUnstakeSession(tw *hx.TraceWriter, rep *hx.Report) {
 	}
 }
 
+// restakeWhileUnstaking: a node that HAS BEGUN unstaking (status unstaking, tokens still in the
+// pool) receives stake messages - same amount, a bump, by operator and by output address - while
+// the unstaking period runs; they must be refused and the stake must come back exactly once.
+func scRestakeWhileUnstaking(tw *hx.TraceWriter, rep *hx.Report) {
+	for variant := 0; variant < 3; variant++ {
+		c := traceCfg(hx.Seed()*1000+590+int64(variant), 0)
+		w := startScenario(tw, c, "restake-while-unstaking")
+		w.block(plain(), w.stakeTx("a3", "a4", 4000000, []string{"0001"}, urls[1], nil, "a3"))
+		w.block(plain(), w.unstakeTx("a3", "a3", "a3"))
+		unstaking := func(st chainsim.State) bool { v, ok := st.Val["a3"]; return ok && v.Status == 1 }
+		if !w.until(8, plain, unstaking) {
+			hx.Fatal("restake-while-unstaking: a3 never reached the unstaking status")
+		}
+		v := w.s.Project().Val["a3"]
+		switch variant {
+		case 0:
+			w.block(plain(), w.stakeTx("a3", v.Output, v.Tokens, v.Chains, v.URL, v.Delegators, "a3"))
+		case 1:
+			w.block(plain(), w.stakeTx("a3", v.Output, v.Tokens+1000000, v.Chains, v.URL, v.Delegators, "a3"),
+				w.stakeTx("a3", v.Output, v.Tokens, []string{"0002"}, urls[2], v.Delegators, v.Output))
+		default:
+			w.block(plain(), w.stakeTx("a3", v.Output, v.Tokens+2000000, v.Chains, v.URL, v.Delegators, v.Output),
+				w.unstakeTx("a3", "a3", "a3"))
+		}
+		for i := 0; i < 8; i++ {
+			w.block(blockOpts{Dt: 1, Proposer: "a2"})
+		}
+		rep.Behaviours++
+	}
+}
+
 // jailed reports whether `n` is jailed in the projected state
 func jailed(n string) func(chainsim.State) bool {
 	return func(st chainsim.State) bool { v, ok := st.Val[n]; return ok && v.Jailed }
@@ -626,7 +657,7 @@ func scWallClock(tw *hx.TraceWriter, rep *hx.Report) {
 }
 
 var scenarios = []scenario{
-	{"edit-matrix", scEditMatrix}, {"delegator-edits", scDelegatorEdits}, {"unstake-session", scUnstakeSession}, {"jail-unjail", scJailUnjail},
+	{"edit-matrix", scEditMatrix}, {"delegator-edits", scDelegatorEdits}, {"unstake-session", scUnstakeSession}, {"restake-while-unstaking", scRestakeWhileUnstaking}, {"jail-unjail", scJailUnjail},
 	{"force-unstake", scForceUnstake}, {"params", scParams}, {"donation", scDonation},
 	{"edit-bypass", scEditBypass}, {"wall-clock", scWallClock},
 }
